@@ -152,10 +152,22 @@ class BranchModel(seqx.Model):
     def opstr(self, op):
         return f'copy({op[1]})' if op[0] == 'copy' else f'append[{op[1]}]({op[2]})'
 
-def _e3(tier, prefill=False):
+def _e3(tier, prefill=False, first=None):
+    """first=None: the whole search in this process; first=-1: only the transitions out of the initial state; first=j: the search below
+    the j-th operation of the initial state, one level less deep (the thorough tier is partitioned this way over the worker pool; states
+    reached in two partitions are then explored twice, which costs time only)"""
     m = BranchModel(tier)
     init = [('append', 0, f'fill{j}') for j in range(7)] if prefill else []
-    res = seqx.bfs(m, max_depth=3 if prefill else (4 if tier == 'quick' else 5), init_hist=init)
+    depth = 3 if prefill else (4 if tier == 'quick' else 5)
+    if first is not None:
+        if first < 0:
+            depth = 1
+        else:
+            init = init + [m.ops(m.build(init))[first]]
+            depth -= 1
+    res = seqx.bfs(m, max_depth=depth, init_hist=init)
+    if first is not None and first >= 0:
+        res['max_depth'] += 1
     viols = []
     for v in res['violations']:
         viols.append(dict(hist=[m.opstr(o) for o in v['hist']], op=m.opstr(v['op']), err=v['err']))
@@ -231,7 +243,7 @@ def _e1(task):
             mons.append(m)
             return (m,)
         if tier != 'quick' or idx % 4 == 0:
-            r = tabx.explore(name, arg, bound=1, max_execs=8 if tier == 'quick' else 60, mode='step',
+            r = tabx.explore(name, arg, bound=1, max_execs=8 if tier == 'quick' else 16, mode='step',
                              monitors_factory=factory, extra_opts=dict(max_steps=150 if tier == 'quick' else 600))
             xs = r['results']
         else:
@@ -248,9 +260,19 @@ def _e1(task):
     return out
 
 def run(ctx):
-    e3a, e3b = pmap(_e3_task, [(ctx.tier, False), (ctx.tier, True)])
-    e3 = dict(states=e3a['states'] + e3b['states'], transitions=e3a['transitions'] + e3b['transitions'], max_depth=e3a['max_depth'],
-              capped=e3a['capped'] or e3b['capped'], violations=e3a['violations'] + e3b['violations'], samples=e3a['samples'] + e3b['samples'][:1])
+    if ctx.quick:
+        parts = pmap(_e3_task, [(ctx.tier, False), (ctx.tier, True)])
+    else:
+        m0 = BranchModel(ctx.tier)
+        etasks = []
+        for prefill in (False, True):
+            init = [('append', 0, f'fill{j}') for j in range(7)] if prefill else []
+            etasks.append((ctx.tier, prefill, -1))
+            etasks += [(ctx.tier, prefill, j) for j in range(len(m0.ops(m0.build(init))))]
+        parts = pmap(_e3_task, etasks)
+    e3 = dict(states=sum(p['states'] for p in parts), transitions=sum(p['transitions'] for p in parts), max_depth=max(p['max_depth'] for p in parts),
+              capped=any(p['capped'] for p in parts), violations=[v for p in parts for v in p['violations']],
+              samples=parts[0]['samples'] + parts[-1]['samples'][:1])
     violations = []
     for v in e3['violations']:
         violations.append(dict(sig=('branch|' + '>'.join(v['hist'] + [v['op']])).replace(' ', ''),
@@ -260,7 +282,7 @@ def run(ctx):
     tasks = []
     for n in names:
         items = list(sweep.fo_args(n, ctx.tier)) + list(sweep.modal_args(n, ctx.tier))
-        items = sweep.thin(items, (9 if n in sweep.SLOW else 3) if ctx.quick else 1)
+        items = sweep.thin(items, (9 if n in sweep.SLOW else 3) if ctx.quick else (6 if n in sweep.SLOW else 2))
         for ch in gen.chunks(items, 4):
             if ch:
                 tasks.append((n, ch, ctx.tier))
@@ -275,7 +297,7 @@ def run(ctx):
         rule=(f'E3: BFS over append/copy histories on real Branch objects (alphabet of {12 if ctx.quick else 16} nodes incl. out-of-order, '
               f'wrapping (s -> a1) and world-tagged constants, access nodes; <= 2 live branches) to depth '
               f'{e3["max_depth"]} from the empty branch and (one level less) from a branch already holding seven filler nodes, where lookups go through the branch index; every has()/find() by node properties is compared with the node list; a state is per branch (constants, next constant, worlds, next world) -- the only fields append() reads; '
-              'E1: witness steps of FO and modal proofs under the default schedule and 1 deviation'),
+              'E1: witness steps of every 3rd (quick) / 2nd (thorough) FO and modal argument (9th / 6th in the slow logics) under the default schedule and 1 deviation (<= 8 / 16 executions each)'),
         e3_max_depth=e3['max_depth'], e3_depth_capped=e3['capped'], e1_executions=execs,
         e1_witness_steps_checked=sum(r['witness_steps'] for r in res),
         samples=e3['samples'] + [r['sample'] for r in res if r['sample']][:3])
